@@ -10,8 +10,8 @@ EXTENDS CADDefs, Json
 CONSTANT Grid
 GridQuick == {<< <<2>>, 2 >>, << <<3>>, 2 >>, << <<2, 2>>, 2 >>, << <<2>>, 4 >>, << <<3>>, 3 >>, << <<3>>, 4 >>,
               << <<2, 2>>, 3 >>, << <<2>>, 5 >>, << <<1>>, 3 >>, << <<2, 1, 2>>, 4 >>}
-GridThorough == GridQuick \cup {<< <<2>>, 6 >>, << <<3>>, 5 >>, << <<2, 3>>, 4 >>, << <<3>>, 6 >>, << <<2, 2, 2>>, 3 >>,
-              << <<5>>, 4 >>, << <<2, 2>>, 5 >>, << <<2, 4>>, 3 >>, << <<7>>, 3 >>}
+GridThorough == GridQuick \cup {<< <<2>>, 6 >>, << <<3>>, 5 >>, << <<2, 3>>, 4 >>, << <<2, 2, 2>>, 3 >>,
+              << <<5>>, 4 >>, << <<2, 4>>, 3 >>, << <<7>>, 3 >>}
 
 VARIABLES ua, u, p, g, cnt, stepok
 vars == <<ua, u, p, g, cnt, stepok>>
